@@ -13,6 +13,7 @@ import (
 
 	"github.com/sirupsen/logrus"
 	appsv1 "k8s.io/api/apps/v1"
+	apierrors "k8s.io/apimachinery/pkg/api/errors"
 	corev1 "k8s.io/api/core/v1"
 	metav1 "k8s.io/apimachinery/pkg/apis/meta/v1"
 	"k8s.io/apimachinery/pkg/runtime"
@@ -98,7 +99,13 @@ func runScale(c scaleCase) []vkit.Violation {
 		for i := 0; i <= c.Old+2; i++ {
 			for _, set := range []string{"set", "other", "set-x", "set-1", "set-10"} {
 				n := fmt.Sprintf("%s-%s-%d", t, set, i)
-				objs = append(objs, mkPVC(n))
+				pvc := mkPVC(n)
+				if i%2 == 1 {
+					// claims keep the labels they were created with: after the StatefulSet was re-created with other selector
+					// labels (or when claims are pre-provisioned) they differ from the selector - they are still its claims
+					pvc.Labels = map[string]string{"sts": "previous-release", "app.kubernetes.io/name": "prometheus"}
+				}
+				objs = append(objs, pvc)
 				before = append(before, n)
 			}
 		}
@@ -560,6 +567,11 @@ type seqOp struct {
 	// FailDelete (scale): the API server answers every claim deletion of this request with an error that is not
 	// "not found" (etcd timeout): the claims stay, the scale change itself succeeds
 	FailDelete bool `json:"failDelete,omitempty"`
+	// ConflictTo (scale; -1 / absent = no conflict): the request's Update loses to a concurrent writer that has just set
+	// spec.replicas to this value: the API server answers 409 Conflict.  Whatever ChangeScale does then - give up with
+	// an error or try again - it must not report success without the requested count, and must not delete a claim of a
+	// shard that remains
+	ConflictTo *int `json:"conflictTo,omitempty"`
 }
 
 type seqCase struct {
@@ -603,8 +615,55 @@ func runSeq(c *seqCase) []vkit.Violation {
 		}
 		return false, nil, nil
 	})
+	conflictTo := -1
+	cli.PrependReactor("update", "statefulsets", func(a k8stesting.Action) (bool, runtime.Object, error) {
+		if conflictTo < 0 {
+			return false, nil, nil
+		}
+		to := conflictTo
+		conflictTo = -1
+		cur, err := cli.Tracker().Get(appsv1.SchemeGroupVersion.WithResource("statefulsets"), ns, "set")
+		if err == nil {
+			set := cur.(*appsv1.StatefulSet).DeepCopy()
+			set.Spec.Replicas = i32(to)
+			_ = cli.Tracker().Update(appsv1.SchemeGroupVersion.WithResource("statefulsets"), set, ns)
+		}
+		return true, nil, apierrors.NewConflict(appsv1.Resource("statefulsets"), "set", fmt.Errorf("the object has been modified; please apply your changes to the latest version and try again"))
+	})
 	for i, op := range c.Ops {
 		failDeletes = op.Kind == "scale" && op.FailDelete
+		if op.Kind == "scale" && op.ConflictTo != nil {
+			conflictTo = *op.ConflictTo
+			before := pvcNames(cli)
+			err := man.ChangeScale(int32(op.N))
+			conflictTo = -1
+			set, _ := cli.AppsV1().StatefulSets(ns).Get(context.TODO(), "set", metav1.GetOptions{})
+			now := int(*set.Spec.Replicas)
+			if err == nil && now != op.N {
+				add("C18/replicas-not-set/after-conflict", "step %d of %+v: ChangeScale(%d) reported success, spec.replicas is %d (a concurrent writer had set %d)", i, c.Ops, op.N, now, *op.ConflictTo)
+				return vs
+			}
+			// whatever happened, every claim of a shard that remains is still there
+			left := map[string]bool{}
+			for _, n := range pvcNames(cli) {
+				left[n] = true
+			}
+			for _, n := range before {
+				for _, t := range tmpls {
+					for o := 0; o < now; o++ {
+						if n == fmt.Sprintf("%s-set-%d", t, o) && !left[n] {
+							add("C18/wrong-claim-deleted/after-conflict", "step %d of %+v: claim %s of remaining shard %d is gone (spec.replicas is %d, ChangeScale(%d) returned %v)", i, c.Ops, n, o, now, op.N, err)
+							return vs
+						}
+					}
+				}
+			}
+			// the model goes on from what is there
+			live = now
+			claims = left
+			failDeletes = false
+			continue
+		}
 		switch op.Kind {
 		case "external":
 			set, _ := cli.AppsV1().StatefulSets(ns).Get(context.TODO(), "set", metav1.GetOptions{})
@@ -661,6 +720,10 @@ func TestC18Seq(t *testing.T) {
 			if op.Kind == "scale" && rapid.IntRange(0, 3).Draw(t, fmt.Sprintf("failDelete%d", i)) == 0 {
 				op.FailDelete = true
 			}
+			if op.Kind == "scale" && !op.FailDelete && rapid.IntRange(0, 4).Draw(t, fmt.Sprintf("conflict%d", i)) == 0 {
+				to := rapid.IntRange(0, 8).Draw(t, fmt.Sprintf("conflictTo%d", i))
+				op.ConflictTo = &to
+			}
 			if rapid.IntRange(0, 2).Draw(t, fmt.Sprintf("back%d", i)) == 0 {
 				op.N = c.Start // back to where the manager started
 				back = true
@@ -673,6 +736,10 @@ func TestC18Seq(t *testing.T) {
 		for _, op := range c.Ops {
 			if op.FailDelete {
 				cls = append(cls, "sequence/claim-deletions-fail-in-one-request")
+				break
+			}
+			if op.ConflictTo != nil {
+				cls = append(cls, "sequence/update-conflicts-with-a-concurrent-scale-change")
 				break
 			}
 		}
